@@ -103,6 +103,20 @@ impl Path {
 
 pub mod fs_more {
     use super::*;
+    /// chmod(2) by path (follows links)
+    #[verifier::external_body]
+    pub fn set_permissions(p: &Path, perm: Permissions, Tracked(w): Tracked<&mut World>) -> (r: std::result::Result<(), io::Error>)
+        ensures fr_files(*old(w), *final(w)),
+            match r {
+                Ok(_) => {
+                    let i = old(w).paths[p.key()].inode;
+                    &&& final(w).faults == old(w).faults && exists_m(old(w).paths, p.key())
+                    &&& final(w).files == old(w).files.insert(i, FileState { mode: mode_perm(perm.spec_mode()), ..old(w).files[i] })
+                    &&& final(w).trace == old(w).trace.push(Event::Chmod(i, mode_perm(perm.spec_mode())))
+                },
+                Err(_) => final(w).faults == old(w).faults + 1 && final(w).files == old(w).files && final(w).trace == old(w).trace,
+            },
+    { unimplemented!() }
     #[verifier::external_body]
     pub fn metadata(p: &Path, Tracked(w): Tracked<&mut World>) -> (r: std::result::Result<Metadata, io::Error>)
         ensures fr_ro(*old(w), *final(w)), final(w).faults == old(w).faults + (if r is Err && exists_m(old(w).paths, p.key()) { 1nat } else { 0 }),
